@@ -288,6 +288,10 @@ class FlexiblePaxosNode(Entity):
 
         events.extend(self._send_heartbeat())
         for slot_idx in range(self._log.commit_index + 1, self._log.last_index + 1):
+            # The new leader holds the entry it re-replicates: count its own
+            # acceptance under this ballot, as _assign_slot does for new slots
+            # (with Q2 == N the N-1 peers alone can never reach the quorum).
+            self._slot_acks[slot_idx] = 1
             events.extend(self._replicate_slot(slot_idx))
         return events
 
